@@ -402,6 +402,7 @@ static std::string gen_text_for_mut(uint64_t seed, const char* stream, uint64_t 
   return jm::render(v, r, ro);
 }
 
+#ifndef VF_FUZZ_TARGET
 int main(int argc, char** argv) {
   for (int i = 1; i + 1 < argc; i++)
     if (std::string(argv[i]) == "--prop") g_prop = argv[i + 1];
@@ -475,3 +476,4 @@ int main(int argc, char** argv) {
   }
   return vf::run(argc, argv, S);
 }
+#endif  // VF_FUZZ_TARGET
